@@ -1,11 +1,12 @@
 # C05 — TRXC command/response  (fake_trx world property; shared machinery in lib/worldcheck.py)
 from lib import vf, worldcheck as wc
+from props import trxcon_part
 
 ID = "C05"
 LEVEL = "proof"
-LEAN_MODULES = ["OsmoVerif.Props.C05"]
-LEAN_MODEL_MODULES = wc.LEAN_MODEL_MODULES
-DRIVER_MODULES = wc.DRIVER_MODULES
+LEAN_MODULES = ["OsmoVerif.Props.C05"] + (["OsmoVerif.Props.Trxcon"] if ID == "C05" else [])
+LEAN_MODEL_MODULES = wc.LEAN_MODEL_MODULES + (trxcon_part.LEAN_MODEL_MODULES if ID == "C05" else [])
+DRIVER_MODULES = wc.DRIVER_MODULES + (["TrxconIf"] if ID == "C05" else [])
 ASSUMPTIONS = wc.ASSUMPTIONS + []
 MANIFEST = {
     "text": "Lean theorems on handleRx: exactly one reply 'RSP verb status args [results]\\\\0' to the sender for every datagram starting with CMD, none otherwise, per-verb status and effect lemmas (POWERON/POWEROFF/RXTUNE/TXTUNE/SETFH/SETFORMAT/MEASURE/SETPOWER/NOMTXPOWER/RFMUTE/SETTA/FAKE_*), unknown verbs acknowledged 0, ValueError answered -1 without state change, SETFH of trxcon's maximal length not truncated; trxcon's emitter and response parser (real trx_if.c) proved/tested separately (Props/Trxcon); oracle judges every reply of the real code against the documented semantics",
@@ -19,10 +20,14 @@ ORACLE_PROFILES = ['ctrl', 'mixed']
 
 def gen(run):
     wc.gen(run)
+    if ID == "C05":
+        trxcon_part.gen(run)
 
 
 def correspond(run, corr):
     wc.correspond(run, corr, CORR_PROFILES, 10000, 150000)
+    if ID == "C05":
+        trxcon_part.correspond(run, corr, parts=("cmd", "rsp"))
 
 
 def search(run, corr, deep):
@@ -30,8 +35,23 @@ def search(run, corr, deep):
     if ID == "C03":
         # thread schedules: one socket-thread operation racing one tick at every atomic-action boundary
         found += wc.sched_oracle(run, corr, deep)
+    if ID == "C05":
+        # trxcon side: real trx_if.c command emission / response parser, and the cross run with the real toolkit
+        found += trxcon_part.oracle(run, corr, deep, parts=("cmd", "rsp"))
+        found += wc.c05_cross(run, corr, deep)
     return found
 
 
 def replay(run, path):
-    return wc.replay(run, path, ID)
+    import json
+    rp = json.load(open(path))
+    tc = [v["witness"] for v in rp.get("violations", []) if str((v.get("witness") or {}).get("kind", "")).startswith("trxcon-")]
+    bad = 0
+    for w in tc:
+        still, text = trxcon_part.replay(run, w)
+        print(text)
+        bad += bool(still)
+    rc = wc.replay(run, path, ID)
+    if bad:
+        print("VIOLATION property=%s replay=%s" % (ID, path))
+    return 1 if (bad or rc) else 0
